@@ -189,6 +189,18 @@ def run(tier, seed):
             if md != d and not (md.startswith("ERR Py") and d.startswith("ERR")):
                 chk.diverge("Model.b64url_dec", f"text {w!r} model {md[:80]} impl {d[:80]}", {"op": "dec", "text": w})
         chk.seen(("word", w))
+    # good texts with Unicode white space / separators / format characters at their ends (what str.strip() or a normalising reader would drop): no base64url
+    for good_ in ("AQID", "AQ", "", "-_-_", "Y3JlZC0x"):
+        for ch_ in ("\u00a0", "\u0085", "\u2028", "\u2029", "\u3000", "\u1680", "\u2003", "\u200b", "\ufeff", "\u001c", "\u180e", "\u00ad"):
+            for w in (good_ + ch_, ch_ + good_, ch_ + good_ + ch_):
+                d = impl_dec(w)
+                chk.evals += 1
+                if d.startswith("OK") and not ch_.isascii():
+                    chk.violation(f"text {w!r} (a base64url text with a non-ASCII character at an end) decodes: {d[:40]}", f"decode-unicode-edge U+{ord(ch_):04X}", {"op": "dec", "text": w, "impl_dec": d})
+                if R:
+                    md = R.call("b64dec " + fw.ws(w))
+                    if md != d and not (md.startswith("ERR Py") and d.startswith("ERR")):
+                        chk.diverge("Model.b64url_dec", f"text {w!r} model {md[:80]} impl {d[:80]}", {"op": "dec", "text": w})
     # the id of a credential is compared with THE encoding of its raw id (anchor sites in verify_*): every other spelling that merely
     # decodes to the same bytes is refused
     from harness import impl, authcat, authsim, regsim, regrun
